@@ -2,7 +2,9 @@ package harness
 
 import (
 	"context"
+	"fmt"
 	"github.com/platinummonkey/go-concurrency-limits/verifsim"
+	"math"
 	"time"
 
 	"github.com/platinummonkey/go-concurrency-limits/core"
@@ -79,10 +81,25 @@ func runC05(r *Run) {
 	var precise *strategy.PreciseStrategy
 	var lookup *strategy.LookupPartitionStrategy
 	var pred *strategy.PredicatePartitionStrategy
-	ks := []int{1 + t.Intn(16, "k0"), t.Intn(12, "k1")}
+	ks := []pfrac{{1 + t.Intn(16, "k0"), 32}, {t.Intn(12, "k1"), 32}}
+	if t.Chance(35, "non-dyadic-fractions") {
+		// fractions that are not exact in binary (1/6, 2/3, 0.07 ...): the share is max(1, ceil(limit x fraction)); where
+		// the float product carries a rounding artefact (0.07 x 100 = 7.000000000000001) both the exact value and
+		// the float value are accepted
+		pool := []pfrac{{1, 6}, {2, 3}, {1, 3}, {7, 100}, {1, 7}, {3, 10}, {11, 20}, {1, 9}, {1, 10}}
+		a := pool[t.Intn(len(pool), "frac0")]
+		b := pool[t.Intn(len(pool), "frac1")]
+		if a.num*b.den+b.num*a.den > a.den*b.den { // keep the sum <= 1
+			b = pfrac{1, 10}
+			if a.num*10+a.den > a.den*10 {
+				a = pfrac{1, 6}
+			}
+		}
+		ks = []pfrac{a, b}
+	}
 	names := []string{"a", "b"}
 	addLater := (kind == "lookup" || kind == "predicate") && t.Chance(50, "add-partition-later")
-	kc := 1 + t.Intn(4, "k-added")
+	kc := pfrac{1 + t.Intn(4, "k-added"), 32}
 	addAfter := time.Duration(t.Intn(6, "add-after")) * time.Nanosecond
 	added := false
 	switch kind {
@@ -95,14 +112,14 @@ func runC05(r *Run) {
 	case "lookup":
 		parts := map[string]*strategy.LookupPartition{}
 		for i, n := range names {
-			parts[n] = strategy.NewLookupPartitionWithMetricRegistry(n, float64(ks[i])/32, 1, reg)
+			parts[n] = strategy.NewLookupPartitionWithMetricRegistry(n, ks[i].float(), 1, reg)
 		}
 		lookup, _ = strategy.NewLookupPartitionStrategyWithMetricRegistry(parts, nil, int32(stratInit), reg)
 		strat = lookup
 	case "predicate":
 		var parts []*strategy.PredicatePartition
 		for i, n := range names {
-			parts = append(parts, strategy.NewPredicatePartitionWithMetricRegistry(n, float64(ks[i])/32, matchers.StringPredicateMatcher(n, false), reg))
+			parts = append(parts, strategy.NewPredicatePartitionWithMetricRegistry(n, ks[i].float(), matchers.StringPredicateMatcher(n, false), reg))
 		}
 		pred, _ = strategy.NewPredicatePartitionStrategyWithMetricRegistry(parts, int32(stratInit), reg)
 		strat = pred
@@ -131,7 +148,7 @@ func runC05(r *Run) {
 	olog := &orderLog{}
 	ll := &loggingLimit{inner: lim, log: olog, logReads: true}
 	ls := &loggingStrategy{inner: strat, log: olog}
-	r.Mixf("C05 strategy=%s(limit %d) limit-kind=%d initial=%d fractions=%v/32 traj=%v", kind, stratInit, mode, initial, ks, func() []int {
+	r.Mixf("C05 strategy=%s(limit %d) limit-kind=%d initial=%d fractions=%v traj=%v", kind, stratInit, mode, initial, ks, func() []int {
 		if script != nil {
 			return script.vals
 		}
@@ -189,7 +206,7 @@ func runC05(r *Run) {
 		}
 		chk, chkK := names, ks
 		if added {
-			chk, chkK = append(append([]string{}, names...), "c"), append(append([]int{}, ks...), kc)
+			chk, chkK = append(append([]string{}, names...), "c"), append(append([]pfrac{}, ks...), kc)
 		}
 		for i, n := range chk {
 			if lookup == nil && pred == nil {
@@ -206,12 +223,12 @@ func runC05(r *Run) {
 			}) || e != nil {
 				return true
 			}
-			if w := share(want, chkK[i]); bl != w {
+			if w, w2 := chkK[i].shares(want); bl != w && bl != w2 {
 				key := kind
 				if n == "c" {
 					key = kind + "/added-partition"
 				}
-				s.Fail("share-stale", key, "%s: partition %s (fraction %d/32) has share %d but the enforced limit %d gives max(1, ceil(limit x fraction)) = %d", where, n, chkK[i], bl, want, w)
+				s.Fail("share-stale", key, "%s: partition %s (fraction %v) has share %d but the enforced limit %d gives max(1, ceil(limit x fraction)) = %d", where, n, chkK[i], bl, want, w)
 				return false
 			}
 		}
@@ -228,8 +245,9 @@ func runC05(r *Run) {
 			if g := reg.Gauge(core.MetricPartitionLimit, "partition:"+n); g != nil {
 				var v float64
 				var ok2 bool
-				if RootCall(func() { v, ok2 = g.Value() }) && ok2 && int(v) != share(want, ks[i]) {
-					s.Fail("limit-gauge-wrong", kind+"/partition", "%s: the partition gauge of %s reports %v, share is %d", where, n, v, share(want, ks[i]))
+				w, w2 := ks[i].shares(want)
+				if RootCall(func() { v, ok2 = g.Value() }) && ok2 && int(v) != w && int(v) != w2 {
+					s.Fail("limit-gauge-wrong", kind+"/partition", "%s: the partition gauge of %s reports %v, share is %d", where, n, v, w)
 					return false
 				}
 			}
@@ -338,9 +356,9 @@ func runC05(r *Run) {
 			tk.Sleep(addAfter)
 			tk.Begin("AddPartition", "c")
 			if lookup != nil {
-				lookup.AddPartition("c", strategy.NewLookupPartitionWithMetricRegistry("c", float64(kc)/32, 1, reg))
+				lookup.AddPartition("c", strategy.NewLookupPartitionWithMetricRegistry("c", kc.float(), 1, reg))
 			} else {
-				pred.AddPartition(strategy.NewPredicatePartitionWithMetricRegistry("c", float64(kc)/32, matchers.StringPredicateMatcher("c", false), reg))
+				pred.AddPartition(strategy.NewPredicatePartitionWithMetricRegistry("c", kc.float(), matchers.StringPredicateMatcher("c", false), reg))
 			}
 			added = true
 			tk.End(nil)
@@ -416,4 +434,23 @@ func runC05(r *Run) {
 		r.Probe("estimate_changed_concurrently")
 		r.Fault("F-limit")
 	}
+}
+
+// pfrac: a partition fraction num/den.
+type pfrac struct{ num, den int }
+
+func (f pfrac) float() float64 { return float64(f.num) / float64(f.den) }
+func (f pfrac) String() string { return fmt.Sprintf("%d/%d", f.num, f.den) }
+
+// shares returns max(1, ceil(L x fraction)) computed exactly and in float64 (equal for dyadic fractions).
+func (f pfrac) shares(L int) (exact, float int) {
+	exact = (L*f.num + f.den - 1) / f.den
+	float = int(math.Ceil(float64(L) * f.float()))
+	if exact < 1 {
+		exact = 1
+	}
+	if float < 1 {
+		float = 1
+	}
+	return
 }
